@@ -147,7 +147,7 @@ type checker struct {
 
 	nFns, nCalls, nBig, nBatches       vk.Counter
 	nNeoRejected, nSuppressed, nMinRun vk.Counter
-	nUnreported                        vk.Counter
+	nUnreported, nWantReject           vk.Counter
 	harnessErrs                        []string
 	fails                              []failure
 	failsDropped                       int
@@ -286,6 +286,40 @@ func (ck *checker) runUnits(b *batch, units []*unit) {
 			ck.mu.Lock()
 			ck.fails = append(ck.fails, failure{b, units[0], mismatch{Fn: 0, Kind: "malformed-code", Diag: ev.Malformed, Count: 1}})
 			ck.mu.Unlock()
+			return
+		}
+		if u := units[0]; u.kind == "shape" && u.shape.WantReject != "" {
+			if strings.Contains(ev.NeoErr, u.shape.WantReject) {
+				ck.nWantReject.Inc()
+				ck.r.Outcome("neo-go-rejects-as-expected: " + trunc(u.shape.WantReject, 60))
+				return
+			}
+			// refused, but with another message: the program is not compiled either way, so the property (which
+			// speaks of compiled functions) says nothing about it; a reworded diagnostic must not raise an alarm.
+			// It is counted and printed so that the family's expectation gets updated.
+			ck.nWantReject.Inc()
+			ck.r.Outcome("neo-go-rejects-with-another-message: " + trunc(ev.NeoErr, 60))
+			fmt.Printf("COVERAGE-GAP C14: %s/%s is refused with %q, expected %q\n", u.shape.Family, u.shape.Tag, trunc(ev.NeoErr, 120), u.shape.WantReject)
+			return
+		}
+		if u := units[0]; u.kind == "shape" && strings.HasPrefix(u.shape.Family, "literals") {
+			// every program of the composite-literal families is inside the documented dialect (the unchanged
+			// compiler accepts all of them): a refusal - or a panic of the compiler - is reported
+			s := u.shape
+			ck.mu.Lock()
+			over := ck.famCount[s.Family] >= 8
+			if !over {
+				ck.famCount[s.Family]++
+			}
+			ck.mu.Unlock()
+			if over || ck.tooMany() {
+				ck.nSuppressed.Inc()
+				return
+			}
+			key := fmt.Sprintf("%s/%s/compiler-refuses:%s", s.Family, s.Tag, shortHash(s.Tmpl))
+			if ck.r.Violation(key, violDetail{Kind: "shape", Feature: s.Family + "/" + s.Tag, Mismatch: mismatch{Kind: "rejected", Diag: trunc(ev.NeoErr, 400), Count: 1}, Source: pruneDecls(s.Hdr + s.Src), Prog: p, FnName: p.Fns[0].Name, ShapeTag: s.Tag, Note: "the reference toolchain accepts the program and nothing in docs/compiler.md excludes it"}) {
+				atomic.AddInt64(&ck.nViol, 1)
+			}
 			return
 		}
 		ck.nNeoRejected.Inc()
@@ -458,6 +492,7 @@ type violDetail struct {
 	ShapeTag  string   `json:"shape_tag,omitempty"`
 	Note      string   `json:"note,omitempty"`
 	SameCause int      `json:"other_failing_programs_with_same_cause,omitempty"`
+	WantReject string  `json:"want_reject,omitempty"` // kind "rejected": the message that would have excused the refusal
 }
 
 func (d violDetail) String() string {
@@ -926,6 +961,12 @@ func (ck *checker) buildBatches(thorough bool, stats map[string]any) []*batch {
 		if f == "control" || f == "longjump" || f == "opassign" || f == "bools" {
 			per = 240 // small functions without helpers, none of which the compiler rejects
 		}
+		if f == "literals" || f == "literals-ctx" || f == "literals-map" {
+			per = 240 // one small function each
+		}
+		if f == "literals-global" {
+			per = 40 // two package variables each: the static slots of a file are limited
+		}
 		for i := 0; i < len(us); i += per {
 			j := min(i+per, len(us))
 			batches = append(batches, &batch{name: fmt.Sprintf("shape:%s#%d", f, i/per), units: us[i:j]})
@@ -1117,6 +1158,7 @@ func TestCheck(t *testing.T) {
 		"files_completed":               int(done),
 		"calls_excluded_value_beyond_64_bits_seen_in_vm": int(ck.nBig.Get()),
 		"units_rejected_by_neo_go_compiler":             int(ck.nNeoRejected.Get()),
+		"units_rejected_with_the_expected_message":      int(ck.nWantReject.Get()),
 		"neo_go_rejections":                             ck.neoRejects,
 		"failing_programs_explained_by_reported_ones":   int(ck.nSuppressed.Get()),
 		"minimisation_runs":                             int(ck.nMinRun.Get()),
@@ -1134,6 +1176,25 @@ func TestCheck(t *testing.T) {
 		"manifest_method_sets_compared":                 int(nMetaSets.Get()),
 		"debug_info_ranges_checked":                     int(nMetaRanges.Get()),
 	}
+	cov["composite_literal_sets"] = litStats
+	for k, v := range litStats { // (the merged evidence keeps scalar values only)
+		cov["literals_"+k] = v
+	}
+	litFns, litCalls, litAgree, litOut, litFams := 0, 0, 0, 0, 0
+	for k, st := range ck.famStats {
+		if strings.HasPrefix(k, "shape:literals") {
+			litFams++
+			litFns += st.functions
+			litCalls += st.calls
+			litAgree += st.agree
+			litOut += len(st.outcomes)
+		}
+	}
+	cov["literals_families"] = litFams
+	cov["literals_functions_run_on_both_sides"] = litFns
+	cov["literals_calls"] = litCalls
+	cov["literals_calls_agreeing"] = litAgree
+	cov["literals_distinct_reference_outcomes_summed_over_families"] = litOut
 	byFam := map[string]any{}
 	for k, st := range ck.famStats {
 		byFam[k] = map[string]int{"functions": st.functions, "calls": st.calls, "calls_agreeing": st.agree, "distinct_reference_outcomes": len(st.outcomes)}
@@ -1175,6 +1236,10 @@ func replay(ck *checker) {
 		o := "agree"
 		if ev.NeoErr != "" || ev.GoErr != "" {
 			o = "does-not-build: " + ev.NeoErr + ev.GoErr
+		}
+		if d.Mismatch.Kind == "rejected" && ev.NeoErr != "" && (d.WantReject == "" || !strings.Contains(ev.NeoErr, d.WantReject)) {
+			o = "rejected: " + ev.NeoErr
+			last = &mismatch{Fn: 0, Kind: "rejected", Diag: trunc(ev.NeoErr, 400), Count: 1}
 		}
 		if ev.Malformed != "" && d.Mismatch.Kind == "malformed-code" {
 			last = &mismatch{Fn: 0, Kind: "malformed-code", Diag: ev.Malformed, Count: 1}
